@@ -44,6 +44,13 @@ reg("C20",
     "Trusted: expat as the XML parser of reference (XML 1.0 4th-edition names). Known finding: astral name characters are passed through.",
     "DESIGN.md §3 C20")
 
+reg("C13",
+    "property-based testing: Hypothesis + enumerated (previous, token, next) triples of walker tokens through the filter, judged by identity-subsequence check and an independent transcription of the standard's optional-tag rules; parse-equivalence round trip on generated conforming documents",
+    "Exploration: every triple with an omittable-name tag in the middle over a 160-token alphabet is enumerated (both tiers), other triples at a seed-rotated stride, plus generated balanced/free streams; "
+    "each removed token must be an attribute-less start tag or end tag the standard allows to omit given its neighbours; survivors must be the same objects in order. Conforming documents: filtered and unfiltered serialisations must parse to the same tree.",
+    "Trusted: vf/ref/optionaltags.py (own transcription of the June-2020 rules); 'no more content in parent' == next token is an end tag or stream end. Two known findings are demanded by the repo's own test data.",
+    "DESIGN.md §3 C13")
+
 NOT_APPLICABLE = {}
 
 
